@@ -36,6 +36,17 @@ def make_records(rng, alph, jsonld_safe=False, nrec=None):
             u = ""                      # a record whose URI prefix is the empty string
         ps = [fresh(pfx) for _ in range(rng.choice([0, 0, 1, 2]))]
         us = ["http://" + fresh(uris) for _ in range(rng.choice([0, 0, 1, 2]))]
+        if rng.random() < 0.2:
+            # synonyms that are equal up to case (['chebi', 'ChEBI'] is the library's own example): different strings
+            for pool, lst, base in ((pfx, ps, p), (uris, us, None)):
+                src = rng.choice(lst + ([base] if base else [])) if (lst or base) else None
+                if src:
+                    raw = src[len("http://"):] if pool is uris else src
+                    for v in (raw.upper(), raw.lower(), raw.swapcase(), raw.capitalize()):
+                        if v and v not in pool and not (jsonld_safe and pool is pfx and v.startswith("@")):
+                            pool.add(v)
+                            lst.append(("http://" + v) if pool is uris else v)
+                            break
         pat = rng.choice([None, None, "", "^\\d+$", "^[A-Z]\\w+\\.$", wordof(rng, alph, 1, 6)])
         out.append(rec(p, u, ps, us, pat))
     return out
@@ -44,7 +55,7 @@ def make_records(rng, alph, jsonld_safe=False, nrec=None):
 class C14(ProgramProperty):
     id = "C14"
     theorems = ["C14_epm", "C14_jsonld", "C14_shacl_literal", "C14_shacl_entry", "C14_tsv", "C14_tsv_bytes", "C14_epm_bytes",
-                "C14_jsonld_bytes"]
+                "C14_jsonld_bytes", "C14_jsonld_ascii", "C14_jsonld_file", "C14_epm_sorted"]
     lean_modules = ["CuriesVerif.Properties.C14", "CuriesVerif.Properties.Bytes", "CuriesVerif.Properties.JsonBytes"]
     rule = ("one case = one strict converter of 1-4 records (records with and without synonyms and patterns side by "
             "side) written with the real writers into real files and read back with the real readers: "
@@ -53,7 +64,10 @@ class C14(ProgramProperty):
             "prefixes non-empty and not starting with '@'), write_shacl and write_tsv (printable characters incl. "
             "backslashes, quotes ', braces, %, regex metacharacters). The re-loaded converter's records, prefix_map, "
             "bimap and pattern_map are compared with the original's. Non-trivial = some string contains a backslash or a "
-            "non-ASCII character, or the converter mixes records with and without synonyms.")
+            "non-ASCII character, or the converter mixes records with and without synonyms. Half of the extended-prefix-map cases "
+            "(30 % of the others) build the converter from a plain prefix map followed by merges; 20 % of the records have synonyms "
+            "equal up to case; every JSON file written is parsed by the modelled json.loads and compared with CPython's result; 10 % "
+            "of the cases exercise the JSON text layer alone (harness/jsonlayer.py).")
 
     def budget(self, tier):
         return 500 if tier == "quick" else 12000
@@ -73,7 +87,8 @@ class C14(ProgramProperty):
         expand = fmt == "jsonld" and rng.random() < 0.5
         build = [init_step(0, recs)]
         how = "constructor"
-        if rng.random() < 0.35 and all(r["pat"] is None for r in recs):
+        if rng.random() < (0.5 if fmt == "epm" else 0.3):
+            recs = [dict(r, pat=None) for r in recs]        # (a plain prefix map carries no patterns)
             # a converter that *acquired* its synonyms: loaded from a plain prefix map (synonym fields never set),
             # then extended with add_prefix(merge=True)
             how = "prefix-map-then-merge"
